@@ -105,7 +105,7 @@ Definition supported (exts : list chars) (p : path) : bool :=
 Definition route (exts : list chars) (fs : fsys) (root : path) (path_info : chars) : outcome * list access :=
   let p := resolve root path_info in
   if negb (is_prefix root p) then (Forbidden, [])
-  else if chars_eqb (last p []) catalog_xml then
+  else if chars_eqb (last p []) catalog_xml && is_prefix root (removelast p) then    (* (the catalog OF a directory inside) *)
     let dir := removelast p in
     if isdir fs dir then (Catalog dir (listdir fs dir), Stat dir :: index_accesses fs dir)
     else (NotFound, [Stat dir])
